@@ -48,7 +48,8 @@ def c20_1(ctx):
     lv = loops[0].target.id
     subj = "%s.coin_value" % lv
     w = sym.int_walk(ctx, f, {subj}, {"self.MAX_MONEY"})
-    must, n = sym.guard_reject_set(w, f.node, _is_raise_vfe, U, E, pure=True)
+    fr = sym.exits_formula(w, _is_raise_vfe)
+    must = sym.must_set(fr, U, E) if fr is not False else E       # rejected whatever the other tests say
     want = iv(0, ("s", 0)).complement()
     ctx.check(must == want, "value-range", ctx.where(f),
               "Tx._check_txs_out: outputs rejected by the value guard are %s; the property requires exactly %s (MAX = self.MAX_MONEY, the per-coin limit)" % (must.fmt("MAX"), want.fmt("MAX")),
@@ -63,9 +64,11 @@ def c20_1(ctx):
     ctx.check(ok, "running-total-init", ctx.where(f), "Tx._check_txs_out: the running total is not initialised to 0 once before the loop")
     tot = "%s + %s" % (acc, subj)
     w2 = sym.int_walk(ctx, f, {tot}, {"self.MAX_MONEY"})
-    s2, n2 = sym.guard_reject_set(w2, f.node, _is_raise_vfe, U, E)
+    fr2 = sym.exits_formula(w2, _is_raise_vfe)
+    s2 = sym.must_set(fr2, U, E) if fr2 is not False else E
     want2 = iv(("s", 1), None)
-    ctx.check(s2 == want2, "running-total-range", ctx.where(f),
+    # totals above the limit must be refused, totals inside 0..MAX must not be (a negative total cannot occur: either way)
+    ctx.check(want2.issubset(s2) and s2.issubset(iv(0, ("s", 0)).complement()), "running-total-range", ctx.where(f),
               "Tx._check_txs_out: the total INCLUDING the current output is rejected on %s; the property requires exactly %s (a total that crosses MAX_MONEY only with the last output must be caught; the per-coin limit must be used)"
               % (s2.fmt("MAX"), want2.fmt("MAX")), sample={"subject": "running total after adding the current output", "rejected": s2.fmt("MAX"), "expected": want2.fmt("MAX")})
     it = ctx.interp
@@ -76,17 +79,19 @@ def c20_1(ctx):
     # coinbase script length
     f = ctx.func(TX, "Tx._check_txs_in")
     w = sym.int_walk(ctx, f, {"len(self.txs_in[0].script)"})
-    s, n = sym.guard_reject_set(w, f.node, _is_raise_vfe, U, E)
+    fr = sym.exits_formula(w, _is_raise_vfe)
+    s, n = sym.decisive_set(fr, U, E) if fr is not False else (E, 0)
     want = iv(2, 100).complement()
     ctx.check(s == want, "coinbase-script-length", ctx.where(f), "Tx._check_txs_in: coinbase script lengths rejected are %s, property requires exactly %s" % (s.fmt(), want.fmt()),
               sample={"subject": "len(self.txs_in[0].script)", "rejected": s.fmt(), "expected": want.fmt()})
-    cb = [e for e in w.exits if _is_raise_vfe(e) and gi.involves_subject(w.guards.get(id(sym.enclosing_if(f.node, e.node)), True))]
+    cb = [e for e in w.exits if _is_raise_vfe(e) and gi.involves_subject(e.cond)]
     ok = bool(cb) and all(not _sat(gi.f_and(e.cond, ("not", ("op", "truthy(self.is_coinbase())")))) for e in cb)
     ctx.check(ok, "coinbase-script-branch", ctx.where(f), "Tx._check_txs_in: the script-length rule is not restricted to coinbase transactions")
     # size limit
     f = ctx.func(TX, "Tx._check_size_limit")
     w = sym.int_walk(ctx, f, {"len(self.as_bin())", "len(self.as_bin(include_witness_data=False))"}, {"self.MAX_TX_SIZE"})
-    s, n = sym.guard_reject_set(w, f.node, _is_raise_vfe, U, E, pure=True)
+    fr = sym.exits_formula(w, _is_raise_vfe)
+    s = sym.must_set(fr, U, E) if fr is not False else E
     want = iv(("s", 1), None)
     ctx.check(s == want, "size-limit", ctx.where(f), "Tx._check_size_limit: sizes rejected are %s, property requires exactly %s" % (s.fmt("MAX_TX_SIZE"), want.fmt("MAX_TX_SIZE")), sample={"subject": "len(self.as_bin())", "rejected": s.fmt("MAX_TX_SIZE")})
     val = it.getattr(it.get(ctx.p.module(TX).name, "Tx"), "MAX_TX_SIZE")
@@ -94,11 +99,13 @@ def c20_1(ctx):
     # empty input / output lists
     f = ctx.func(TX, "Tx._check_tx_inout_count")
     w = sym.int_walk(ctx, f, {"self.txs_out", "len(self.txs_out)"})
-    s, n = sym.guard_reject_set(w, f.node, _is_raise_vfe, U, E, pure=True)
+    fr = sym.exits_formula(w, _is_raise_vfe)
+    s = sym.must_set(fr, U, E) if fr is not False else E
     ctx.check(s == iv(0, 0), "no-outputs", ctx.where(f), "Tx._check_tx_inout_count: a transaction is rejected unconditionally for len(txs_out) in %s; the property requires: no outputs => rejected, whatever else holds" % s.fmt(),
               sample={"subject": "len(self.txs_out)", "rejected_unconditionally": s.fmt()})
     w = sym.int_walk(ctx, f, {"self.txs_in", "len(self.txs_in)"})
-    s, n = sym.guard_reject_set(w, f.node, _is_raise_vfe, U, E)
+    fr = sym.exits_formula(w, _is_raise_vfe)
+    s, n = sym.decisive_set(fr, U, E) if fr is not False else (E, 0)
     ctx.check(s == iv(0, 0), "no-inputs", ctx.where(f), "Tx._check_tx_inout_count: len(txs_in) values rejected are %s; property requires exactly {0}" % s.fmt(), sample={"subject": "len(self.txs_in)", "rejected": s.fmt()})
 
 
@@ -157,10 +164,7 @@ def c20_2(ctx):
 def c20_3(ctx):
     f = ctx.func(TXIN, "TxIn.is_coinbase")
     w = sym.walk(ctx, f)
-    rets = [e for e in w.exits if e.kind == "return"]
-    if len(rets) != 1 or rets[0].value is None:
-        raise Undecided("TxIn.is_coinbase: expected a single return expression")
-    form = w.atomize(rets[0].value, True)
+    form = sym.truth_formula(w)
     zero = repr(b"\0" * 32)
     a_hash = ("op", " == ".join(sorted([zero, "self.previous_hash"])))
     a_idx = ("op", " == ".join(sorted(["4294967295", "self.previous_index"])))
@@ -169,10 +173,7 @@ def c20_3(ctx):
               "TxIn.is_coinbase is true when %s; the null outpoint is previous_hash == 32 zero bytes AND previous_index == 0xffffffff" % _fmt(form), sample={"function": f.qualname, "predicate": _fmt(form)})
     f = ctx.func(TX, "Tx.is_coinbase")
     w = sym.int_walk(ctx, f, {"len(self.txs_in)"})
-    rets = [e for e in w.exits if e.kind == "return"]
-    if len(rets) != 1 or rets[0].value is None:
-        raise Undecided("Tx.is_coinbase: expected a single return expression")
-    form = w.atomize(rets[0].value, True)
+    form = sym.truth_formula(w)
     s = gi.sat_set(form, U, E)
     ops = gi.f_opaques(form)
     ctx.check(s == iv(1, 1) and "truthy(self.txs_in[0].is_coinbase())" in ops and not _sat(gi.f_and(form, ("not", ("op", "truthy(self.txs_in[0].is_coinbase())")))), "tx-is-coinbase", ctx.where(f),
@@ -207,7 +208,7 @@ def c20_4(ctx):
     want = ["_check_tx_inout_count", "_check_txs_out", "_check_txs_in", "_check_size_limit"]
     for name in want:
         calls = [e for e in w.effects if e.kind == "call" and norm(e.call) == "self.%s()" % name]
-        ctx.check(any(e.reach is True and not e.loops for e in calls), "check-calls:%s" % name, ctx.where(f), "Tx.check does not call self.%s() unconditionally" % name)
+        ctx.check(any(e.reach is True and not [l for l in e.loops if not getattr(l, "unrolled", False)] for e in calls), "check-calls:%s" % name, ctx.where(f), "Tx.check does not call self.%s() unconditionally" % name)
     early = [e for e in w.exits if e.kind == "return" and e.cond is not True]
     ctx.check(not early and not any(isinstance(n, ast.Try) for n in body_nodes(f.node)), "check-straight-line", ctx.where(f), "Tx.check contains a conditional return / try that can skip a sub-check")
 
